@@ -32,7 +32,7 @@ let shuffle_of_json j : utxo list -> utxo list =
                        with Stdlib.Not_found -> raise (Model_error "shuffle: unknown id")) out
 let nlist l = of_list of_n l
 let phase_name = function
-  | PLock -> "lock" | PRead -> "read" | PSelect -> "select" | PReserve -> "reserve" | PUnlock -> "unlock"
+  | PPreLock -> "prelock" | PPre -> "pre" | PPreUnlock -> "preunlock" | PLock -> "lock" | PRead -> "read" | PSelect -> "select" | PReserve -> "reserve" | PUnlock -> "unlock"
   | PAbort -> "abort" | PFinish -> "finish"
   | PDone Released -> "released" | PDone Broadcast -> "broadcast" | PDone Failed -> "failed"
 let () = serve (fun fn req ->
@@ -68,8 +68,16 @@ let () = serve (fun fn req ->
         let key u = (try Stdlib.Hashtbl.find pos (string_of_n u.uid) with Stdlib.Not_found -> Stdlib.max_int) in
         SL.stable_sort (fun a b -> Stdlib.compare (key a) (key b)) snap in
     let chooser b r snap = c03_choose fpb sh strat amount b r (view b snap) in
-    let st = run use_lock (nat_of_int nb) chooser more finish can_sign sched
-                 (init (wallet_of_json (jfield req "wallet"))) in
+    let w0 = wallet_of_json (jfield req "wallet") in
+    (* the pre-chosen inputs of a build that are rows of the wallet; whether it has to enter the lock at all *)
+    let pre b =
+      match jfield_opt builds.(int_of_nat b) "pre" with
+      | None | Some JNull -> []
+      | Some j -> SL.filter_map (fun x -> let i = string_of_n (jn x) in
+                                 SL.find_opt (fun u -> string_of_n u.uid = i) (SL.map Stdlib.fst w0)) (jlist j) in
+    let start b = (match jfield_opt builds.(int_of_nat b) "start" with Some j -> jbool j | None -> true) in
+    let lock_pre = (match jfield_opt req "lock_pre" with Some j -> jbool j | None -> true) in
+    let st = run use_lock lock_pre (nat_of_int nb) chooser more finish pre start can_sign sched (init w0) in
     JObj [("builds", JArr (SL.init nb (fun i ->
              let b = st.bs (nat_of_int i) in
              JObj [("phase", JStr (phase_name b.ph)); ("held", nlist (SL.map (fun u -> u.uid) b.held));
